@@ -1,4 +1,5 @@
 pub mod c04;
+pub mod c10;
 pub mod c19;
 
 use crate::core::Prop;
@@ -6,6 +7,7 @@ use crate::core::Prop;
 pub fn by_id(id: &str) -> Option<Box<dyn Prop>> {
     match id {
         "C04" => Some(Box::new(c04::C04)),
+        "C10" => Some(Box::new(c10::C10)),
         "C19" => Some(Box::new(c19::C19)),
         _ => None,
     }
